@@ -218,6 +218,13 @@ ApplyWhat(w, vs, env, k0) ==
                      e0 == ("%self" :> Len(s0) + 1) @@ ("%T" :> Len(s0) + 2)
                      b == BindAll(e0, s1, d.ps, vs)
                  IN [st EXCEPT !.s = b.s, !.e = b.env, !.c = Ev(d.body), !.k = Push(k0, [f |-> "call", env |-> env])]
+    \* [body for x in src | cond]: the frame walks the elements in order; cond and body are pure expressions
+    [] w.w = "collect" ->
+         [st EXCEPT !.c = Val(VUnit),
+                    !.k = Push(k0, [f |-> "coll", x |-> w.x, cond |-> w.cond, body |-> w.body, env |-> env, phase |-> "next",
+                                    cur |-> env, range |-> w.range, acc |-> <<>>,
+                                    src |-> IF w.range THEN VNil ELSE vs[1],
+                                    rcur |-> IF w.range THEN vs[1].z ELSE Zero, hi |-> IF w.range THEN vs[2].z ELSE Zero])]
     [] w.w = "tuple" -> [st EXCEPT !.c = Val([t |-> "tup", vs |-> vs]), !.k = k0]     \* several values at once: (e1, .., en)
     [] w.w = "throw" -> [st EXCEPT !.c = [k |-> "thr", exn |-> w.exn, vs |-> vs], !.k = k0]
     [] w.w = "for" ->
@@ -322,6 +329,24 @@ EvAsg == IsEv /\ X.e = "asg" /\
 (* (x1, .., xn) := v where v delivers n values (a tuple expression or a call of a function that  *)
 (* returns several values): all values exist before the first variable changes, so             *)
 (* (a, b) := (b, a) exchanges a and b                                                          *)
+EvCollect == IsEv /\ X.e = "collect" /\
+  GoAny(StartArgs([w |-> "collect", x |-> X.x, cond |-> X.cond, body |-> X.body, range |-> X.src.e = "range"],
+                  IF X.src.e = "range" THEN <<X.src.lo, X.src.hi>> ELSE <<X.src>>))
+RetCollNext == IsVal /\ HasF /\ F.f = "coll" /\ F.phase = "next" /\
+  Go(LET done == IF F.range THEN Cmp(F.rcur, F.hi) > 0 ELSE F.src.t = "nil" IN
+     IF done
+     THEN LET m == MkList(st.s, F.acc) IN [st EXCEPT !.s = m.s, !.c = Val(m.v), !.e = F.env, !.k = Pop(st.k)]
+     ELSE LET item == IF F.range THEN VSI(F.rcur) ELSE st.s[F.src.l].h
+              s1 == Alloc(st.s, item)
+              e1 == Bind(F.env, F.x, Len(st.s) + 1)
+              F1 == IF F.range THEN [F EXCEPT !.rcur = Add(F.rcur, One)] ELSE [F EXCEPT !.src = st.s[F.src.l].tl]
+          IN [st EXCEPT !.s = s1, !.e = e1, !.c = Ev(IF F.cond.e = "none" THEN F.body ELSE F.cond),
+                        !.k = Push(Pop(st.k), [F1 EXCEPT !.cur = e1, !.phase = IF F.cond.e = "none" THEN "body" ELSE "cond"])])
+RetCollCond == IsVal /\ HasF /\ F.f = "coll" /\ F.phase = "cond" /\
+  Go(IF st.c.v.b THEN [st EXCEPT !.c = Ev(F.body), !.e = F.cur, !.k = Push(Pop(st.k), [F EXCEPT !.phase = "body"])]
+     ELSE [st EXCEPT !.c = Val(VUnit), !.k = Push(Pop(st.k), [F EXCEPT !.phase = "next"])])
+RetCollBody == IsVal /\ HasF /\ F.f = "coll" /\ F.phase = "body" /\
+  Go([st EXCEPT !.c = Val(VUnit), !.k = Push(Pop(st.k), [F EXCEPT !.phase = "next", !.acc = Append(F.acc, st.c.v)])])
 EvTuple == IsEv /\ X.e = "tuple" /\ GoAny(StartArgs([w |-> "tuple"], X.args))
 EvMAsg == IsEv /\ X.e = "masg" /\
   Go([st EXCEPT !.c = Ev(X.v), !.k = Push(st.k, [f |-> "masg", xs |-> X.xs, env |-> st.e])])
@@ -524,7 +549,7 @@ Init == /\ pid \in 1..Len(Progs)
 Step == \/ EvLit \/ EvBool \/ EvStr \/ EvUnit \/ EvVar \/ EvMac \/ EvPrim \/ EvCall \/ EvCallV \/ EvPrint
         \/ EvList \/ EvCons \/ EvListOp \/ EvNewArr \/ EvARef \/ EvASet \/ EvALen \/ EvMkRec \/ EvRGet \/ EvRSet
         \/ EvMkUn \/ EvUIs \/ EvUGet \/ EvDCall \/ EvThrow \/ EvIf \/ EvAnd \/ EvOr \/ EvSeq \/ EvAsg \/ EvLet \/ EvLam \/ EvGen
-        \/ EvWhile \/ EvFor \/ EvForIn \/ EvBreak \/ EvIter \/ EvRet \/ EvYield \/ EvTry \/ EvError \/ EvAssert \/ RetAssert \/ EvTuple \/ EvMAsg \/ RetMAsg
+        \/ EvWhile \/ EvFor \/ EvForIn \/ EvBreak \/ EvIter \/ EvRet \/ EvYield \/ EvTry \/ EvError \/ EvAssert \/ RetAssert \/ EvTuple \/ EvMAsg \/ RetMAsg \/ EvCollect \/ RetCollNext \/ RetCollCond \/ RetCollBody
         \/ RetArgsNext \/ RetArgsApply \/ RetIf \/ RetAnd \/ RetOr \/ RetSeq \/ RetExitTaken \/ RetExitNot
         \/ RetAsg \/ RetLet \/ RetWhileCond \/ RetWhileBody \/ RetForStep \/ RetForInList \/ RetForInGen
         \/ RetGenEnd \/ RetYieldK \/ YieldUnwind \/ YieldDeliver \/ RetCall \/ RetRetK \/ RetUnwind \/ RetArrive
